@@ -905,6 +905,14 @@ def C19(tier, seed):
         mc_stats = [{"cfg": fcfg, "states": r["states"], "transitions": r["transitions"], "wall_s": r["wall_s"]}]
         states += r["states"]
         transitions += r["transitions"]
+        rc = C.run_tlc("MCFlwF.tla", os.path.join(C.SPEC, "MCFlwF_c.cfg"), os.path.join(wd, "mc-flwf-c"), workers=6, timeout=3000)
+        if rc["violated"] or rc["deadlock"]:
+            raise C.ToolError(f"FlwF/MCFlwF_c.cfg violates {rc['violated']}")
+        mc_stats.append({"cfg": "MCFlwF_c.cfg", "states": rc["states"], "transitions": rc["transitions"], "wall_s": rc["wall_s"]})
+        states += rc["states"]
+        transitions += rc["transitions"]
+        C.log(f"[C19] TLC MCFlwF_c.cfg: {rc['states']} distinct states; the same with synchronous cleanup (remove / compress; "
+              f"failures at fs:remove, gz_create, gz_copy, gz_finish, remove_orig): additionally TwinsOnlyUnfinished")
         rmut = C.run_tlc("MCFlwF.tla", os.path.join(C.SPEC, "MCFlwF_mut.cfg"), os.path.join(wd, "mc-flwf-mut"), workers=2, timeout=600)
         if "C19_OnlyOwnFailureMissing" not in (rmut["violated"] or []):
             raise C.ToolError("FlwF: the variant that drops the record after a failed rotation must violate C19_OnlyOwnFailureMissing")
